@@ -116,6 +116,12 @@ def run(tier):
     for i in range(400 if thorough else 120):
         p, root, src = gen_core.gen_program(vlib.seed() * 1000000 + 900000 + i)
         progs.append({"id": i + 1, "fam": "ctx", "root": root, "nodes": p.nodes[1:], "src": src})
+    # coroutine programs too: threads derive their own contexts, which must not change anything either
+    import gen_co
+    crng = random.Random(vlib.seed() * 31 + 11)
+    cops = [gen_co.script_program(crng) for _ in range(1200 if thorough else 300)] + list(gen_co.fixed_programs())
+    for cp, croot in cops:
+        progs.append({"id": len(progs) + 1, "fam": "ctx-co", "root": croot, "nodes": cp.nodes[1:], "src": render(cp, croot)})
     with_ctx = lsem.run_real(progs, "c11ctx")
     without = lsem.run_real([dict(p, opts={"noctx": True}) for p in progs], "c11noctx")
     same = 0
